@@ -126,7 +126,9 @@ class LTLExplainer(LtlAstVisitor):
         op_intervals = explain_rise(op_signal, intervals)
         self.explanations[element.name] = intervals
 
+        # rise(p) = p and not prev(p): the previous sample contributes with the opposite polarity
         self.visit(element.children[0], [op_intervals, flag])
+        self.visit(element.children[0], [explain_prev(op_signal, intervals), not flag])
 
     def visitFall(self, element, args):
         intervals = args[0]
@@ -135,7 +137,9 @@ class LTLExplainer(LtlAstVisitor):
         op_intervals = explain_fall(op_signal, intervals)
         self.explanations[element.name] = intervals
 
-        self.visit(element.children[0], [op_intervals, flag])
+        # fall(p) = prev(p) and not p: the current sample contributes with the opposite polarity
+        self.visit(element.children[0], [op_intervals, not flag])
+        self.visit(element.children[0], [explain_prev(op_signal, intervals), flag])
 
     def visitNot(self, element, args):
         intervals = args[0]
